@@ -21,6 +21,8 @@ def layoutCluster : List (String × String) := [("Controller", "_.ControllerID")
 def layoutTopic : List (String × String) := [("Error", "_.ErrorCode"), ("Name", "_.Name"), ("Partitions", "makePartitions(_.Partitions)")]
 def layoutPartition : List (String × String) := [("Error", "_.ErrorCode"), ("ID", "_.PartitionIndex"), ("Leader", "_.LeaderID")]
 
+def filterPlaceholder : List (String × String) := [("ErrorCode", "int16(UnknownTopicOrPartition)"), ("Name", "_")]
+
 /-! ### metadata.go Client.Metadata, conn.go ReadPartitions (C19) -/
 def userBroker : List (String × String) := [("Host", "_.Host"), ("ID", "int(_.NodeID)"), ("Port", "int(_.Port)"), ("Rack", "_.Rack")]
 def metaPartition : List (String × String) :=
